@@ -35,11 +35,187 @@ func realVars(t *Term) []int32 {
 	return vs
 }
 
+// wideDom: explicit small domain of a variable wider than 8 bits (e.g. a rune
+// constrained to printable ASCII): materialised once single-variable range
+// constraints bound it to at most 512 values.
+type wideDom struct {
+	cons []*Term  // single-variable conjuncts seen so far
+	lo   int64    // signed bounds derived from comparison patterns
+	hi   int64
+	vals []uint64 // explicit domain once small enough (nil before)
+}
+
+// unsignedUpper: c is an unsigned upper bound v < k / v <= k (so v is also non-negative as a signed value)
+func unsignedUpper(c *Term) bool {
+	neg := false
+	if c.op == OpNot {
+		neg = true
+		c = c.args[0]
+	}
+	if c.op != OpUlt && c.op != OpUle || len(c.args) != 2 {
+		return false
+	}
+	varLeft := c.args[1].op == OpConst
+	// v < k (not negated, var on the left)  or  !(k <= v) / !(k < v) (negated, var on the right)
+	return (varLeft && !neg) || (!varLeft && neg)
+}
+
+func cmpBound(c *Term, id int32, bits int) (isLower bool, bound int64, ok bool) {
+	neg := false
+	if c.op == OpNot {
+		neg = true
+		c = c.args[0]
+	}
+	if len(c.args) != 2 {
+		return false, 0, false
+	}
+	isVar := func(t *Term) bool {
+		for t.op == OpZext || t.op == OpSext {
+			t = t.args[0]
+		}
+		return t.op == OpVar && t.id == id
+	}
+	a, b := c.args[0], c.args[1]
+	var k *Term
+	varLeft := false
+	switch {
+	case isVar(a) && b.op == OpConst && a.sort.Bits == bits:
+		k, varLeft = b, true
+	case isVar(b) && a.op == OpConst && b.sort.Bits == bits:
+		k = a
+	default:
+		return false, 0, false
+	}
+	kv := signExt(k.val, k.sort.Bits)
+	if (c.op == OpUlt || c.op == OpUle) && kv < 0 {
+		return false, 0, false
+	}
+	// normalise to v OP k
+	type rel int
+	const (
+		lt rel = iota
+		le
+		gt
+		ge
+	)
+	var r rel
+	switch c.op {
+	case OpUlt, OpSlt:
+		if varLeft {
+			r = lt
+		} else {
+			r = gt
+		}
+	case OpUle, OpSle:
+		if varLeft {
+			r = le
+		} else {
+			r = ge
+		}
+	default:
+		return false, 0, false
+	}
+	if neg {
+		r = map[rel]rel{lt: ge, le: gt, gt: le, ge: lt}[r]
+	}
+	// unsigned comparisons bound a signed variable only from above when k >= 0 (v in [0,k]); treat v<k unsigned as 0<=v<k
+	unsigned := c.op == OpUlt || c.op == OpUle
+	switch r {
+	case lt:
+		return false, kv - 1, true
+	case le:
+		return false, kv, true
+	case gt:
+		if unsigned {
+			return false, 0, false
+		}
+		return true, kv + 1, true
+	case ge:
+		if unsigned {
+			return false, 0, false
+		}
+		return true, kv, true
+	}
+	return false, 0, false
+}
+
+func (s *State) noteWide(id int32, vt *Term, c *Term) {
+	s.ownDom()
+	old := s.wide[id]
+	var w wideDom
+	if old != nil {
+		w = *old
+		w.cons = append([]*Term(nil), old.cons...)
+	} else {
+		w.lo, w.hi = -(int64(1) << uint(vt.sort.Bits-1)), (int64(1)<<uint(vt.sort.Bits-1))-1
+	}
+	w.cons = append(w.cons, c)
+	if w.vals != nil {
+		// filter the explicit domain
+		var nv []uint64
+		m := Model{}
+		for _, v := range w.vals {
+			m[id] = v
+			r, ok := evalTerm(c, m)
+			if !ok {
+				s.linked[id] = true
+				return
+			}
+			if r != 0 {
+				nv = append(nv, v)
+			}
+		}
+		w.vals = nv
+		s.wide[id] = &w
+		return
+	}
+	if lower, b, ok := cmpBound(c, id, vt.sort.Bits); ok {
+		if lower && b > w.lo {
+			w.lo = b
+		}
+		if !lower && b < w.hi {
+			w.hi = b
+		}
+		if !lower && unsignedUpper(c) && w.lo < 0 {
+			w.lo = 0
+		}
+	}
+	if w.hi-w.lo >= 0 && w.hi-w.lo < 512 {
+		m := Model{}
+		vals := []uint64{}
+		for x := w.lo; x <= w.hi; x++ {
+			uv := uint64(x) & mask(vt.sort.Bits)
+			m[id] = uv
+			all := true
+			for _, cc := range w.cons {
+				r, ok := evalTerm(cc, m)
+				if !ok {
+					s.linked[id] = true
+					return
+				}
+				if r == 0 {
+					all = false
+					break
+				}
+			}
+			if all {
+				vals = append(vals, uv)
+			}
+		}
+		w.vals = vals
+	}
+	s.wide[id] = &w
+}
+
 // noteConstraint updates domains/links for a new path-condition conjunct.
 func (s *State) noteConstraint(c *Term) {
 	vs := c.Vars()
 	if len(vs) == 1 && vs[0] > 0 {
 		vt := varTerm(vs[0])
+		if vt != nil && vt.sort.K == KBV && vt.sort.Bits > 8 {
+			s.noteWide(vs[0], vt, c)
+			return
+		}
 		if vt != nil && vt.sort.K == KBV && vt.sort.Bits == 8 {
 			d := s.dom[vs[0]]
 			var nd byteDom
@@ -92,7 +268,11 @@ func (s *State) ownDom() {
 	for k, v := range s.linked {
 		nl[k] = v
 	}
-	s.dom, s.linked, s.domOwned = nd, nl, true
+	nw := make(map[int32]*wideDom, len(s.wide)+2)
+	for k, v := range s.wide {
+		nw[k] = v
+	}
+	s.dom, s.linked, s.wide, s.domOwned = nd, nl, nw, true
 }
 
 // byteAtom: c mentions exactly one variable, an unlinked 8-bit input.
@@ -105,20 +285,36 @@ func (s *State) byteAtom(c *Term) (int32, bool) {
 		return 0, false
 	}
 	vt := varTerm(vs[0])
-	if vt == nil || vt.sort.K != KBV || vt.sort.Bits != 8 {
+	if vt == nil || vt.sort.K != KBV {
 		return 0, false
+	}
+	if vt.sort.Bits != 8 {
+		if w := s.wide[vs[0]]; w == nil || w.vals == nil {
+			return 0, false
+		}
 	}
 	return vs[0], true
 }
 
+// domValues: the values variable id may still take (explicit list).
+func (s *State) domValues(id int32) []uint64 {
+	if w := s.wide[id]; w != nil && w.vals != nil {
+		return w.vals
+	}
+	d := s.dom[id]
+	out := make([]uint64, 0, 256)
+	for v := uint64(0); v < 256; v++ {
+		if d == nil || d.has(v) {
+			out = append(out, v)
+		}
+	}
+	return out
+}
+
 // satisfyingValue: some value of var id allowed by the domain under which all atoms hold.
 func (s *State) satisfyingValue(id int32, atoms []*Term) (uint64, bool, bool) {
-	d := s.dom[id]
 	m := Model{}
-	for v := uint64(0); v < 256; v++ {
-		if d != nil && !d.has(v) {
-			continue
-		}
+	for _, v := range s.domValues(id) {
 		m[id] = v
 		all := true
 		for _, a := range atoms {
@@ -207,13 +403,9 @@ func (ex *Exec) domDecide(st *State, c *Term) (feasible bool, m Model, decided b
 
 // atomStatus: 1 = true for every allowed value, -1 = false for every allowed value, 0 = undecided.
 func (s *State) atomStatus(id int32, a *Term) int {
-	d := s.dom[id]
 	m := Model{}
 	sawT, sawF := false, false
-	for v := uint64(0); v < 256; v++ {
-		if d != nil && !d.has(v) {
-			continue
-		}
+	for _, v := range s.domValues(id) {
 		m[id] = v
 		r, ok := evalTerm(a, m)
 		if !ok {
